@@ -103,6 +103,32 @@ func passiveSite(site string) bool {
 // are evaluated only then.
 var PureOrder = true
 
+// ReverseOrder is true while the current execution is the globally reversed one.
+var ReverseOrder = false
+
+// WithPureChooser runs f (a reference / differential run) under the same global order
+// policy as the current pure execution, outside the explored choice sequence: its
+// choice points are not branch points of the DFS.
+func WithPureChooser(f func()) {
+	saved := verifrt.Choose
+	if ReverseOrder {
+		verifrt.Choose = func(site string, n int) []int {
+			if passiveSite(site) {
+				return nil
+			}
+			p := make([]int, n)
+			for k := range p {
+				p[k] = n - 1 - k
+			}
+			return p
+		}
+	} else {
+		verifrt.Choose = nil
+	}
+	defer func() { verifrt.Choose = saved }()
+	f()
+}
+
 // ReplayDivergence is a harness error: a recorded choice sequence met a different
 // choice structure than when it was recorded.
 type ReplayDivergence struct{ Msg string }
@@ -113,6 +139,7 @@ type ReplayDivergence struct{ Msg string }
 func OrderRun(prefix []int, reverse bool, siteFilter func(string) bool, run func()) (choices []int, pts []point) {
 	i := 0
 	PureOrder = true
+	ReverseOrder = reverse
 	for _, c := range prefix {
 		if c != 0 {
 			PureOrder = false
